@@ -80,7 +80,7 @@ static struct RefreshCounts {
 } refreshCounts[rcCount];
 
 static OBJH refreshStats;
-static int refreshStaleness(const StoreEntry * entry, time_t check_time, const time_t age, const RefreshPattern * R, stale_flags * sf);
+static time_t refreshStaleness(const StoreEntry * entry, time_t check_time, const time_t age, const RefreshPattern * R, stale_flags * sf);
 
 static RefreshPattern DefaultRefresh(nullptr);
 
@@ -135,7 +135,7 @@ refreshFirstDotRule()
  * \retval >0  The amount of staleness.
  * \retval 0   NOTE return value of 0 means the response is stale.
  */
-static int
+static time_t
 refreshStaleness(const StoreEntry * entry, time_t check_time, const time_t age, const RefreshPattern * R, stale_flags * sf)
 {
     // 1. If the cached object has an explicit expiration time, then we rely on this and
@@ -254,7 +254,7 @@ refreshCheck(const StoreEntry * entry, HttpRequest * request, time_t delta)
 {
     time_t age = 0;
     time_t check_time = squid_curtime + delta;
-    int staleness;
+    time_t staleness; // time_t: a difference of two time_t values may exceed int
     stale_flags sf;
 
     // get the URL of this entry, if there is one
